@@ -862,12 +862,30 @@ theorem charIndicesNext_inv (c c' : Cursor) (g : Int) (hg : 1 ≤ g ∧ g ≤ c.
 theorem split_sizeHint_panic_witness : (splitRun [97, 44, 98] [44] 2 ⟨3, 0⟩ []).2 = .panic := by decide
 
 /-- `Split::next` moves the cursor past the end as soon as the pattern is not found any more -/
-theorem splitNext_exhausts (c c' : Cursor) (patLen : Int) (hp : 1 ≤ patLen)
+theorem splitNext_exhausts (c c' : Cursor) (patLen : Int)
     (hn : splitNext c patLen none = some c') : c'.len < c'.pos := by
   unfold splitNext at hn
   split at hn
   · cases hn; simp; omega
   · cases hn
+
+/-- **an empty pattern terminates** (e1818ae): after the first part every `next` either advances the
+cursor by at least one byte or exhausts the iterator -/
+theorem splitNext_empty_progress (c c' : Cursor) (rest : List Nat)
+    (hn : splitNext c 0 ((splitFind [] rest true).map Int.ofNat) = some c') :
+    c.pos < c'.pos := by
+  unfold splitNext at hn
+  split at hn
+  · unfold splitFind at hn
+    simp only [List.isEmpty_nil, ite_true] at hn
+    cases hr : rest.head? with
+    | none => rw [hr] at hn; simp at hn; cases hn; simp; omega
+    | some b =>
+      rw [hr] at hn; simp at hn; cases hn; simp
+      unfold utf8Len; split <;> (try split) <;> (try split) <;> omega
+  · cases hn
+
+example : (splitRunH sizeHint [97, 195, 169] [] false 6 ⟨3, 0⟩ []).1 = [(0, 0), (0, 1), (1, 3), (3, 3)] := by decide
 
 /-- `size_hint` of `Split` is safe as long as the last piece has not been yielded -/
 theorem split_sizeHint_partial (c : Cursor) (hl : inLen c.len) (h0 : 0 ≤ c.pos) (hle : c.pos ≤ c.len) :
